@@ -57,5 +57,10 @@ fn fix_ring_doc(mut doc: Vec<u8>) -> Vec<u8> {
 }
 
 fn is_ring(bytes: &[u8]) -> bool {
-    bytes.find(RING_TEMPLATE_CONTEXT_SPECIFIC).is_some()
+    // Only try to fix documents that have the expected structure, anything else is left to the
+    // parser to reject.
+    bytes.len() >= 2
+        && bytes[0] == 0x30
+        && bytes[1] as usize == bytes.len() - 2
+        && bytes.find(RING_TEMPLATE_CONTEXT_SPECIFIC).is_some()
 }
